@@ -347,7 +347,9 @@ class Policy:
                 want = self._acut_pick(runnable)
                 return want
             want_region = self.cuts[self.ci][2] if len(self.cuts[self.ci]) > 2 else "a"
-            if want_region in ("W", "R"):
+            if want_region == "O":
+                counts = bool(getattr(self, "boundary", False))      # the thread is about to invoke its next operation
+            elif want_region in ("W", "R"):
                 counts = getattr(self, "hot", None) == want_region
             else:
                 counts = in_anchor and (want_region == "a" or want_region == getattr(self, "region", None))
@@ -356,7 +358,14 @@ class Policy:
                 if self.acount >= self.cuts[self.ci][1]:
                     self.ci += 1
                     self.acount = 0
-                    return self._acut_pick(runnable) if self.ci < len(self.cuts) else tid
+                    if self.ci < len(self.cuts):
+                        return self._acut_pick(runnable)
+                    # the last cut is reached: the threads stopped earlier finish first (in the order they were stopped),
+                    # the one stopped last goes on after them
+                    for c in self.cuts:
+                        if c[0] != tid and c[0] in runnable:
+                            return c[0]
+                    return tid
             return tid
         if k == "apct":
             # PCT whose scheduling points are the anchor points only: far fewer points, so a bug of depth d is hit
@@ -491,6 +500,7 @@ class Scheduler:
                 self.rpoints[tid] += 1
                 region = "r"
         self.policy.region = region
+        self.policy.boundary = boundary
         nxt = self.policy.choose(tid, self.vstep, self.seg_steps, in_anchor, self.runnable())
         if nxt != tid:
             self.switch(tid, nxt, frame, boundary, instr)
